@@ -15,7 +15,7 @@ func (g *Generator) handleExpr(paramType ast.Expr, name *ast.Ident, file *ast.Fi
 	switch t := paramType.(type) {
 	case *ast.SelectorExpr:
 		// fmt.Println("::", "SelectorExpr")
-		g.handleSelectorExpr(t, name, methodName)
+		g.handleSelectorExpr(t, name, methodName, httpMethod)
 	case *ast.Ident:
 		// fmt.Println("::", "Ident")
 		g.handleIdent(t, name, file, methodName)
@@ -30,7 +30,7 @@ func (g *Generator) handleExpr(paramType ast.Expr, name *ast.Ident, file *ast.Fi
 	}
 }
 
-func (g *Generator) handleSelectorExpr(paramType *ast.SelectorExpr, name *ast.Ident, methodName string) {
+func (g *Generator) handleSelectorExpr(paramType *ast.SelectorExpr, name *ast.Ident, methodName, httpMethod string) {
 	typ := g.Pkg().TypesInfo.Types[paramType].Type
 	named, ok := typ.(*types.Named)
 	if !ok {
@@ -40,6 +40,12 @@ func (g *Generator) handleSelectorExpr(paramType *ast.SelectorExpr, name *ast.Id
 	pkgPath := obj.Pkg().Path()
 	if pkgPath == "context" && obj.Name() == "Context" {
 		g.data.CtxParamMap[methodName] = name.Name
+	} else if _, basic := named.Underlying().(*types.Basic); basic && (httpMethod == http.MethodGet || httpMethod == http.MethodDelete) {
+		// a named scalar of another package (time.Duration) travels like a scalar of this package
+		if shoot.Contains(g.data.PathParamsMap[methodName], name.Name) {
+			return
+		}
+		g.data.QueryParamsMap[methodName] = append(g.data.QueryParamsMap[methodName], name.Name)
 	} else {
 		g.setBodyParamName(methodName, name.Name)
 		g.handleStruct(paramType, paramType.Sel.Name, name, methodName)
